@@ -386,7 +386,7 @@ func (f *Failover) doBuild(
 		return nil, writeErr
 	}
 
-	if f.config.ObserveMutability && value != nil {
+	if f.config.ObserveMutability && f.stat != nil && value != nil {
 		f.observeMutability(ctx, uVal, value)
 	}
 
